@@ -60,7 +60,7 @@ def opt(x: Any) -> Any:
 
 
 def canon_model(out: Any) -> Dict[str, Any]:
-    failed, allobj, objects, roots, pages, inv, guarded, unproc = out
+    failed, allobj, objects, roots, pages, inv, guarded, unproc, mros = out
     return {
         'failed': opt(failed),
         'allobjects': [[rpath(p), i] for p, i in allobj],
@@ -69,7 +69,7 @@ def canon_model(out: Any) -> Dict[str, Any]:
                     for n, par, cl, kind, cont, al, bases, subs, sup in objects],
         'roots': list(roots),
         'pages': [[i, None if not f else quote(rpath(f[0])) + '.html'] for i, f in pages],
-        'unprocessed': list(unproc), 'inv': bool(inv), 'guarded': bool(guarded),
+        'unprocessed': list(unproc), 'inv': bool(inv), 'guarded': bool(guarded), 'mros': mros,
     }
 
 
@@ -632,6 +632,14 @@ CORPUS_OPS: List[List[Any]] = [
 ]
 
 
+def enc_mro_item(x: Any) -> Any:
+    """An item of the real Class.mro(True) in the numbering of Registry.wire_cid / wire_ext."""
+    if isinstance(x, int):
+        return 2 * x + 2
+    g = re.match(r'zz_unresolved_(\d+)_(\d+)$', str(x))
+    return 2 * (1024 * int(g.group(1)) + int(g.group(2))) + 1 if g else 'name:%s' % x
+
+
 def group_failures(fails: List[Dict[str, Any]], obs: Any) -> Dict[str, List[Dict[str, Any]]]:
     by: Dict[str, List[Dict[str, Any]]] = {}
     for f in fails:
@@ -658,6 +666,7 @@ def eval_ops_chunk(args: Any) -> Any:
         count('ops_len_%02d' % len(c) if len(c) < 6 else 'ops_len_6plus')
         inv = cm.pop('inv')
         guarded = cm.pop('guarded')
+        mros = cm.pop('mros')
         if cm['failed'] is not None or ci['failed'] is not None:
             count('ops_raise')
             if guarded:
@@ -676,7 +685,24 @@ def eval_ops_chunk(args: Any) -> Any:
             viols.append(('correspondence', 'Model.Registry and pydoctor disagree on the state after a history '
                           '(fields: %s)' % diff, {'ops': c}, {k: cm[k] for k in diff}, {k: ci[k] for k in diff}))
             count('ops_diff')
-        fails = oracle(obs, postprocessed=(c.count([4]) == 1 and c[-1] == [4]))
+        post = (c.count([4]) == 1 and c[-1] == [4])
+        if post:
+            # the hierarchy read off the registry (Registry.hier_of) fed to Model/Mro.v vs. the real compute_mro
+            registered = set(i for _, i in obs['allobjects'])      # _init_mro runs for objectsOfType(Class) only
+            for i, m in enumerate(mros):
+                if not m or i not in registered:
+                    continue
+                if m[0] != 0:
+                    count('ops_mro_rejected')
+                    continue
+                real = obs['objects'][i]['mro']
+                enc_real = None if real is None else [enc_mro_item(x) for x in real]
+                count('ops_mro_compared')
+                if enc_real != list(m[1:]):
+                    viols.append(('correspondence', 'Model/Mro.v on Registry.hier_of and the real compute_mro disagree on the '
+                                  'linearisation of object %d' % i, {'ops': c}, {'mro': list(m[1:])}, {'mro': enc_real}))
+                    break
+        fails = oracle(obs, postprocessed=post)
         ifails = [f for f in fails if f['code'] in I_CODES]
         count('ops_inv_true' if inv else 'ops_inv_false')
         if inv != (not ifails):
@@ -697,7 +723,7 @@ def eval_ops_chunk(args: Any) -> Any:
 class Check(PropertyCheck):
     id = 'C02'
     props_module = 'Props.C02'
-    models = {'registry': 'XRegistry.v'}
+    models = {'registry': 'XRegistry.v', 'implements': 'XImplements.v'}
     rule = ('(i) exhaustive: quick = every sequence of <= 3 operations {AddModule(pkg?, name, parent), AddChild(Class|Function|'
             'Attribute, name, parent), Reparent(o, newparent, newname)} over 3 names with ANY object as parent, and every '
             'sequence of <= 4 operations with Class/Function children and parents ranging over the objects that can hold the '
@@ -716,26 +742,30 @@ class Check(PropertyCheck):
         'names are structured (base, duplicate indices); the rendering base ++ " i" ... and "."-joined paths are injective '
         'only for bases without blank and dot (Python identifiers); quote() is injective',
         'modelled not verified: that astbuilder issues only guarded registry operations (validated on generated projects '
-        'by the oracle); System.unprocessed_modules / Module.state (C01); MRO equality (C05); zope implementedby '
-        '(oracle only)',
+        'by the oracle); Module.state (C01); name resolution that produces baseobjects and the find_object targets of '
+        'implements_directly (C04/C07) -- both are inputs of the models',
     ]
     manifest = {
         'text': ('Theorems over Model/Registry.v for every history (unbounded): the invariant Inv (I1 registry keys are exactly the '
                  'current qualified names and fullName terminates; I2 the registered set is closed under parent/contents/'
                  "rootobjects; I3 every object is its parent's entry unless superseded; I4 the walk up ends in a root; I5 kinds "
                  'fit) holds initially (C02_inv_init), is preserved by addObject incl. handleDuplicate (C02_inv_add), by '
-                 '_addUnprocessedModule (C02_inv_add_module), by Documentable.reparent (C02_inv_reparent) under their guards and '
-                 'hence after every guarded history (C02_inv_history, executable form C02_inv_history_exec with C02_guard_b_sound); '
-                 'the fuelled walks do not run out of fuel (C02_fuel_*); subclasses is the exact inverse of baseobjects after '
-                 'post-processing (C02_subclasses_inverse); page file names are injective and disjoint from the summary pages '
-                 'except for the recorded names (C02_url_injective_partial). Five _refuted witnesses (vm_compute) for the recorded '
-                 'defects. Tie: exhaustive + random operation histories through the real API vs the extracted model, state for '
-                 'state, with inv_check cross-validated against the Python oracle; generated source projects through the real '
-                 'builder checked by the oracle.'),
+                 '_addUnprocessedModule incl. both duplicate-module rules (C02_inv_add_module, C02_inv_dup_module), by '
+                 'Documentable.reparent (C02_inv_reparent) under their guards; a guarded operation does not raise (C02_step_total) '
+                 'so every guarded history completes in a state satisfying Inv (C02_inv_history; executable form '
+                 'C02_inv_history_exec with C02_guard_b_sound); the executable checker decides Inv (C02_inv_check_iff); the '
+                 'fuelled walks do not run out of fuel (C02_fuel_*); subclasses is the exact inverse of baseobjects '
+                 '(C02_subclasses_inverse); every linearisation starts with the class and holds each resolved base once '
+                 '(C02_mro_shape, corollary of C05); implementedby is the exact inverse of implements (C02_implements_inverse); '
+                 'page file names are injective and disjoint from the summary pages except for the recorded names '
+                 '(C02_url_injective_partial). _refuted witnesses (vm_compute), also as single breaking steps from an Inv state, for '
+                 'the recorded defects. Tie: exhaustive + random operation histories through the real API vs the extracted '
+                 'model, state for state, incl. the MRO of every class and the zope back-references; inv_check cross-validated '
+                 'against the Python oracle; generated source projects through the real builder checked by the oracle.'),
         'note': ('Trusted: Coq kernel, ExtrOcamlBasic extraction + OCaml driver, the Python harness, injectivity of the name '
-                 'rendering / quote(). Not proved, sampled: that the AST builder only issues guarded operations; that guarded '
-                 'operations do not raise; replacement of a module inside a package; MRO shape (C05); zope implementedby.'),
-        'technique': 'Coq proof (state-machine invariant) + exhaustive/random model-vs-implementation correspondence + oracle',
+                 'rendering / quote(). Not proved, sampled: that the AST builder only issues guarded operations; name resolution '
+                 'feeding baseobjects / find_object (C04, C07).'),
+        'technique': 'Coq proof (state-machine invariant, totality) + exhaustive/random model-vs-implementation correspondence + oracle',
     }
     assumptions = ['name bases contain neither blank nor dot', 'modules are added before processing (never re-added after)']
 
@@ -843,15 +873,66 @@ class Check(PropertyCheck):
             out.extend(self.group(oracle(obs), obs, c))
         return out
 
+    # ---------------------------------------------------------------- (iii) interface back-references
+    def zope_cases(self) -> List[Dict[str, Any]]:
+        """Exhaustive: <= 3 classes, each an interface or not, each with <= 2 names that resolve to any class or to
+        nothing, every order of the classes; plus random larger ones."""
+        cases: List[Dict[str, Any]] = []
+        for n in (1, 2, 3):
+            tgt = [None] + list(range(n))
+            tlists = [[]] + [[a] for a in tgt] + [[a, b] for a in tgt for b in tgt]
+            if n == 3:
+                tlists = [[]] + [[a] for a in tgt] + [[a, a] for a in tgt[1:]] + [[0, 1], [1, 0], [2, None]]
+            for flags in itertools.product((0, 1), repeat=n):
+                for ts in itertools.product(tlists, repeat=n):
+                    for order in itertools.permutations(range(n)):
+                        cases.append({'objs': [[f, list(t)] for f, t in zip(flags, ts)], 'order': list(order)})
+        nrand = 300 if self.tier == 'quick' else 20000
+        for _ in range(nrand):
+            n = self.rng.randint(4, 9)
+            objs = [[int(self.rng.random() < 0.5),
+                     [self.rng.choice([None] + list(range(n))) for _ in range(self.rng.randint(0, 4))]] for _ in range(n)]
+            order = list(range(n))
+            self.rng.shuffle(order)
+            cases.append({'objs': objs, 'order': order})
+        if self.tier == 'quick':
+            cases = cases[::3] + cases[-nrand:]
+        self.stats['zope_cases'] = len(cases)
+        return cases
+
+    def run_zope(self, cases: List[Dict[str, Any]]) -> List[Violation]:
+        out: List[Violation] = []
+        impl = lib.run_impl_worker('c02_zope.py', cases, jobs=8)
+        mod = self.model('implements', [enc([len(c['objs']), [[f, [None if t is None else [t] for t in ts]] for f, ts in c['objs']],
+                                              c['order']]) for c in cases])
+        nt = 0
+        for c, r, m in zip(cases, impl, mod):
+            mm = [list(x) for x in dec(m)]
+            if any(r):
+                nt += 1
+            if mm != r and len(out) < 10:
+                out.append(Violation('correspondence', 'Model.Implements and zopeinterface.postProcess disagree on '
+                                     'implementedby_directly', case={'zope': c}, expected=mm, observed=r))
+            # D3 on the real result: x is listed by i exactly when x names the interface i; listed once
+            for i, lst in enumerate(r):
+                want = [x for x in c['order'] if c['objs'][i][0] and i in c['objs'][x][1]]
+                if sorted(lst) != sorted(want) and len([v for v in out if v.kind == 'oracle']) < 10:
+                    out.append(Violation('oracle', 'interface C%d is implemented by %s according to the declarations but lists %s'
+                                         % (i, want, lst), case={'zope': c}, observed={'class': 'unknown', 'failures': []}))
+        self.stats['distinct_nontrivial_zope'] = nt
+        return out
+
     def correspondence(self) -> List[Violation]:
         self._kept: Dict[str, int] = {}
         ops = self.op_cases()
         out = self.run_ops(ops)
         projs = self.project_cases()
         out.extend(self.run_projects(projs))
-        self.evaluations = len(ops) + len(projs)
+        zc = self.zope_cases()
+        out.extend(self.run_zope(zc))
+        self.evaluations = len(ops) + len(projs) + len(zc)
         self.stats['distinct_nontrivial'] = self.stats.get('distinct_nontrivial_ops', 0) + \
-            self.stats.get('distinct_nontrivial_projects', 0)
+            self.stats.get('distinct_nontrivial_projects', 0) + self.stats.get('distinct_nontrivial_zope', 0)
         for c in ops[len(CORPUS_OPS) + 5000:len(CORPUS_OPS) + 5002] + ops[-2:]:
             self.sample({'ops': c})
         self.sample(projs[-1])
@@ -863,13 +944,16 @@ class Check(PropertyCheck):
         found: List[Violation] = []
         cases = [b.case['ops'] for b in broken if isinstance(b.case, dict) and 'ops' in b.case]
         g = OpGen(self.rng)
-        cases += [g.history(self.rng.randint(3, 30), wild=0.05) for _ in range(4000)]
-        impl = lib.run_impl_worker('c02_ops.py', [ops_for_impl(c) for c in cases], jobs=16)
-        for c, r in zip(cases, impl):
-            if r['failed'] is None:
-                for v in self.group(oracle(r['obs']), r['obs'], {'ops': c}):
-                    if v.observed['class'] == 'unknown':
-                        found.append(v)
+        cases += [g.history(self.rng.randint(3, 30), wild=0.0) for _ in range(4000)]
+        # only guarded histories are pydoctor's behaviour (eval_ops_chunk applies the oracle to those only); when the
+        # model itself is broken fall back to histories without unguarded parents
+        try:
+            viols, _, _ = eval_ops_chunk((cases, str(self.binaries['registry'])))
+        except Exception:  # noqa
+            viols = []
+        for kind, what, case, exp, obs in viols:
+            if kind == 'oracle' and obs['class'] == 'unknown':
+                found.append(Violation(kind, what, case=case, expected=exp, observed=obs))
         if not found:
             gp = ProjGen(self.rng)
             projs = [gp.project() for _ in range(600)]
@@ -903,6 +987,7 @@ class Check(PropertyCheck):
             print('pydoctor   :', json.dumps(ci), r.get('exc') or '')
             inv = cm.pop('inv', None)
             guarded = cm.pop('guarded', None)
+            cm.pop('mros', None)
             print('guarded    :', guarded, ' inv_check:', inv)
             rc = 0
             if cm.get('failed') != ci.get('failed') or (cm['failed'] is None and cm != ci):
@@ -917,6 +1002,20 @@ class Check(PropertyCheck):
                     rc = 1
                 if not fails:
                     print('property   : holds on this history')
+            return rc
+        if isinstance(case, dict) and 'zope' in case:
+            z = case['zope']
+            r = lib.run_impl_worker('c02_zope.py', [z])[0]
+            print('classes (isinterface, names resolve to):', z['objs'], ' order:', z['order'])
+            print('implementedby_directly (real):', r)
+            rc = 0
+            for i, lst in enumerate(r):
+                want = [x for x in z['order'] if z['objs'][i][0] and i in z['objs'][x][1]]
+                if sorted(lst) != sorted(want):
+                    print('property   : VIOLATED interface C%d must be implemented by exactly %s' % (i, want))
+                    rc = 1
+            if not rc:
+                print('property   : holds on this input')
             return rc
         r = lib.run_impl_worker('c02_project.py', [case])[0]
         print('project    :', json.dumps(case, indent=1))
